@@ -22,6 +22,7 @@ import (
 	"reflect"
 	"runtime"
 	"sort"
+	"strconv"
 	"strings"
 	"sync"
 	"sync/atomic"
@@ -121,9 +122,49 @@ func echo(tag string, c flamego.Context) string {
 		c.Request().Header.Get("X-Req-Id"), c.Request().URL.RawQuery)
 }
 
+// routes of the family of regex segments with several bind parameters (harness/concreq.go `crRegexRoute`), of five
+// shapes, shapes / expressions / separators / tails drawn from the run's seed (set once by concMain, before the first build)
+var concRx []crRoute
+
+func genConcRx(r *rand.Rand) []crRoute {
+	var out []crRoute
+	// (every route costs every one of the ~450 instances the run builds a registration: five shapes per run here; the
+	// concreq sessions go through all of them on every run)
+	shapes := rxShapes()
+	for k, i := range r.Perm(len(shapes))[:5] {
+		out = append(out, crRegexRoute(r, k, shapes[i]))
+	}
+	return out
+}
+
 func buildConcApp(dir string) *flamego.Flame {
 	flamego.SetEnv(flamego.EnvTypeProd) // Recovery answers with a constant body (no stack trace)
 	f := flamego.NewWithLogger(io.Discard)
+	// Before hooks of the Flame: one that looks at every request and passes it on, a liveness probe that answers with a
+	// body, one that answers without writing anything (the client sees an empty 200) — such requests never reach the router
+	f.Before(func(w http.ResponseWriter, r *http.Request) bool { return r.Header.Get("X-Never-Set") != "" })
+	f.Before(func(w http.ResponseWriter, r *http.Request) bool {
+		if r.URL.Path != "/healthz" {
+			return false
+		}
+		w.Header().Set("X-Probe", r.Header.Get("X-Req-Id"))
+		_, _ = w.Write([]byte("ok " + r.Method))
+		return true
+	})
+	f.Before(func(w http.ResponseWriter, r *http.Request) bool {
+		if r.URL.Path == "/ping/quiet" {
+			return true
+		}
+		if strings.HasPrefix(r.URL.Path, "/ping/") {
+			w.WriteHeader(http.StatusNoContent)
+			return true
+		}
+		return false
+	})
+	for i, rt := range concRx {
+		tag := fmt.Sprintf("rx%d", i)
+		f.Get(rt.text, func(c flamego.Context) string { return echo(tag, c) })
+	}
 	f.Use(flamego.Logger(), flamego.Recovery(), flamego.Renderer(), flamego.Static(flamego.StaticOptions{
 		Directory: dir, Prefix: "assets", SetETag: true,
 		CacheControl: func() string { return "max-age=60" },
@@ -251,7 +292,7 @@ func concRequests(r *rand.Rand, n int) []concReq {
 	var out []concReq
 	for i := 0; i < n; i++ {
 		q := concReq{Method: "GET", Header: map[string]string{"X-Req-Id": fmt.Sprintf("r%d", i)}}
-		switch k := r.Intn(46); k {
+		switch k := r.Intn(50); k {
 		case 0:
 			q.Kind, q.Path = "static-root", "/"
 		case 1:
@@ -353,6 +394,20 @@ func concRequests(r *rand.Rand, n int) []concReq {
 			// anything for it
 			q.Kind, q.Path = "method-without-routes", []string{"/users/" + w(), "/", "/nowhere"}[r.Intn(3)]
 			q.Method = []string{"OPTIONS", "TRACE", "CONNECT", "PROPFIND", "brew", "LOCK", "M-SEARCH"}[r.Intn(7)]
+		case 43, 44:
+			// a regex segment with several binds (some with capturing groups of their own), as a leaf or inside the tree
+			if len(concRx) > 0 {
+				q.Kind = "regex-multi-bind"
+				q.Path, _ = concRx[r.Intn(len(concRx))].mk(w()+strconv.Itoa(i), w())
+			} else {
+				q.Kind, q.Path = "not-found", "/nowhere/"+w()
+			}
+		case 45, 46:
+			// answered by a Before hook of the Flame (with a body / with a bare status / with nothing); the last two are
+			// near misses that go on to the router
+			q.Kind = "before-hook"
+			q.Path = []string{"/healthz", "/healthz", "/ping/" + w(), "/ping/quiet", "/healthz/" + w(), "/ping"}[r.Intn(6)]
+			q.Method = []string{"GET", "GET", "HEAD", "POST"}[r.Intn(4)]
 		case 40:
 			// not found AFTER the matcher has bound something: a leading bind segment matches, a later segment fails
 			q.Kind = "not-found-after-bind"
@@ -423,6 +478,7 @@ func concMain(args []string) {
 		workers, distinct, rounds, twins = 32, 1200, 5, 24
 	}
 	r := rand.New(rand.NewSource(seed))
+	concRx = genConcRx(rand.New(rand.NewSource(seed + 7919)))
 	f := buildConcApp(filepath.Join(dir, "public"))
 	cold := buildConcApp(filepath.Join(dir, "public")) // ---- set-up ends here
 	reqs := concRequests(r, distinct)
@@ -450,6 +506,17 @@ func concMain(args []string) {
 	}
 	for i, q := range reqs {
 		if again := serveOne(f, q); !sameResp(again, serial[i]) {
+			// The first time round this request got, on this instance, the answer it gets on an instance that served nothing
+			// else (checked above). If an instance that served nothing else STILL gives that answer, the handlers of this
+			// application are repeatable and it is the instance that changed while serving: state carried from earlier
+			// requests (this very request included) into a later one.
+			if alone := serveOne(buildConcApp(filepath.Join(dir, "public")), q); sameResp(alone, serial[i]) {
+				out, _ := json.MarshalIndent(map[string]interface{}{"what": "a response served after other requests on the same instance (the whole mix, this request included, was served once before) differs from the response the same request gets on an instance that served nothing else",
+					"pass": "serial, second time round", "request": q, "alone": alone, "after_others": again, "position_in_serial_pass": i, "seed": seed, "tier": tier}, "", " ")
+				_ = os.WriteFile(filepath.Join(dir, "divergence.json"), out, 0o644)
+				fmt.Println(`{"result":"divergent","pass":"serial-again"}`)
+				os.Exit(1)
+			}
 			out, _ := json.MarshalIndent(map[string]interface{}{"what": "the SERIAL outcome is not repeatable (harness problem or a stateful route)",
 				"request": q, "first": serial[i], "second": again}, "", " ")
 			_ = os.WriteFile(filepath.Join(dir, "divergence.json"), out, 0o644)
